@@ -21,6 +21,9 @@ structure LiveEnv where
   stopOk  : Bool
   startOk : Bool
   reconf  : List Nat
+  /-- an external `Start` (outside provisioning: the per-pipeline lock does not cover it) lands
+  between `ApplyPlanLive`'s first read of the running status and its re-read. -/
+  becomesRunning : Bool := false
 deriving Repr, DecidableEq, Inhabited
 
 /-- observable events of one apply, in order. -/
@@ -65,8 +68,19 @@ def swapLoop : List Act → List Nat → List Id → List Ev → Option Bool × 
     | _ :: script' => (none, swapped, script', log)              -- error: roll back
   | _ :: rest, script, swapped, log => swapLoop rest script swapped log
 
+/-- the running status as `isRunning` reads it (a missing pipeline is not running). -/
+def runningNow (s : St) (id : Id) : Bool := ((s.mem.pls id).map (fun p => isRunningStatus p.status)).getD false
+
+/-- The window between the two status reads of `ApplyPlanLive`: the first read is taken from
+`s`; when it says "not running" the status is read again (TOCTOU close), and an external
+`Start` may have landed in between — the state the re-read, the authorisation gate and
+everything after them see. -/
+def flipState (c : PipeCfg) (env : LiveEnv) (s : St) : St :=
+  if !runningNow s c.id && env.becomesRunning then setStatusRaw c.id 1 s else s
+
 /-- `ApplyPlanLive(desired, hash, allowRestartOnRunning)`; `presented` is the plan whose hash
-the caller presents. Result, state, event log. -/
+the caller presents. Result, state, event log. Order of the steps as in the source: plan, hash
+check, empty check, first status read, re-read when not running, authorisation gate, apply. -/
 def applyPlanLive (v : Variant) (c : PipeCfg) (presented : List Act) (allow : Bool) (env : LiveEnv) (s : St) :
     Except Err Unit × St × List Ev :=
   match exportPl v s.mem c.id with
@@ -76,7 +90,9 @@ def applyPlanLive (v : Variant) (c : PipeCfg) (presented : List Act) (allow : Bo
     if presented ≠ fresh then (.error .stale, s, [])
     else if fresh.isEmpty then (.ok (), s, [])
     else
-      let running := ((s.mem.pls c.id).map (fun p => isRunningStatus p.status)).getD false
+      -- first read (from `s`), re-read when it said "not running" (from the flipped state)
+      let s := flipState c env s
+      let running := runningNow s c.id
       if running && !allow then (.error .unauth, s, [])
       else if !running then tImport v c s []
       else
